@@ -1,17 +1,17 @@
 SPECIFICATION Spec
 CONSTANTS
   Classes <- Classes4
-  Outs <- OutsC02
-  Durs = {0, 1, 2, 5}
-  Rets <- RetsC02
-  Advs <- AdvsAll
-  Decs <- DecsSleep
+  Outs <- OutsC16
+  Durs = {0, 1}
+  Rets <- RetsTwo
+  Advs <- AdvsExact
+  Decs <- DecsAll
   BFaults <- BFaultsNone
   Ras <- RasNone
   Modes = {"call", "exec"}
   RunGaps <- GapsNone
   NRuns = 1
-  Configs <- ConfigsC02
+  Configs <- ConfigsC16T
   RecordHist = FALSE
 INVARIANT NoViolation
 INVARIANT AttemptsBounded
